@@ -316,11 +316,20 @@ class Daemon(object):
         except (BrokenPipeError, OSError):
             raise Died()
 
-    def reload(self, new_text, wait=True):
-        tmp = self.conf_path + ".new"
-        with open(tmp, "w", encoding="latin-1") as f:
-            f.write(new_text)
-        os.replace(tmp, self.conf_path)
+    def reload(self, new_text, wait=True, inplace=None):
+        """Replace the configuration file and send SIGUSR1.  Every second reload of a daemon overwrites the file in place
+        (same inode, possibly the same size and modification second), the others rename a new file over it."""
+        self.nreload = getattr(self, "nreload", 0) + 1
+        if inplace is None:
+            inplace = (self.nreload % 2 == 1)
+        if inplace:
+            with open(self.conf_path, "w", encoding="latin-1") as f:
+                f.write(new_text)
+        else:
+            tmp = self.conf_path + ".new"
+            with open(tmp, "w", encoding="latin-1") as f:
+                f.write(new_text)
+            os.replace(tmp, self.conf_path)
         self.p.send_signal(signal.SIGUSR1)
         if wait and self.hooks:
             return self._collect_until("#verif reload")
